@@ -196,7 +196,11 @@ def run_surrogate(ctx, res, seed):
     x0 = Variable('x0', domain=(0.0, 1.0), norm=rng.choice([None, 'linear(2, 1)']))
     x1 = Variable('x1', domain=(-1.0, 1.0))
     y0 = Variable('y0', domain=(-1.0, 3.0), norm=norm_y0)
-    y1 = Variable('y1', domain=(-3.0, 6.0)); y2 = Variable('y2', domain=(-2.0, 5.0)); y3 = Variable('y3')
+    # which component has NO surrogate: the last one, or one in the MIDDLE of the chain whose (normalised) output feeds a
+    # surrogate component downstream
+    nosurr = ['c3', 'c1'][seed % 2]
+    y1 = Variable('y1', domain=(-3.0, 6.0), norm=rng.choice([None, 'linear(0.1, 2)']) if nosurr == 'c3' else 'linear(0.1, 2)')
+    y2 = Variable('y2', domain=(-2.0, 5.0), norm=rng.choice([None, 'linear(3, -1)'])); y3 = Variable('y3')
     sgk = dict(opt_args={'locally_biased': False, 'maxfun': 60})
 
     def m0(inputs): return {'y0': np.exp(0.5 * inputs['x0']) + inputs['x1'] ** 2}
@@ -205,18 +209,22 @@ def run_surrogate(ctx, res, seed):
     def m3(inputs): return {'y3': inputs['y1'] - 2 * inputs['y2']}
     comps = [Component(m0, inputs=[x0, x1], outputs=[y0], name='c0', vectorized=True, data_fidelity=(2, 2),
                        training_data=SparseGrid(**sgk)),
-             Component(m1, inputs=[y0, x1], outputs=[y1], name='c1', vectorized=True, data_fidelity=(2, 2),
-                       training_data=SparseGrid(**sgk)),
+             (Component(m1, inputs=[y0, x1], outputs=[y1], name='c1', vectorized=True, data_fidelity=(2, 2),
+                        training_data=SparseGrid(**sgk)) if nosurr != 'c1' else
+              Component(m1, inputs=[y0, x1], outputs=[y1], name='c1', vectorized=True)),
              Component(m2, inputs=[y0, x0], outputs=[y2], name='c2', vectorized=True, data_fidelity=(2, 2),
                        training_data=SparseGrid(**sgk)),
-             Component(m3, inputs=[y1, y2], outputs=[y3], name='c3', vectorized=True)]
+             (Component(m3, inputs=[y1, y2], outputs=[y3], name='c3', vectorized=True) if nosurr == 'c3' else
+              Component(m3, inputs=[y1, y2], outputs=[y3], name='c3', vectorized=True, data_fidelity=(1, 1),
+                        training_data=SparseGrid(**sgk)))]
     listing = rng.sample(range(4), 4)
     system = System(*[comps[i] for i in listing], name='sysB')
     np.random.seed(seed % 2 ** 31)
     system.fit(max_iter=rng.randint(5, 9), num_refine=30, max_tol=-np.inf, update_bounds=False)
     np.random.seed(seed % 2 ** 31 + 1)
     xs = system.sample_inputs(6)
-    configs = [({}, {}), ({'c1': 'best'}, {}), ({}, {'c0': 'train'}), ({'c0': 'best', 'c2': 'best'}, {'c1': 'train'})]
+    configs = [({}, {}), ({'c1': 'best'}, {}), ({}, {'c0': 'train'}), ({'c0': 'best', 'c2': 'best'}, {'c1': 'train'}),
+               ({'c3': 'best'}, {})]
     for overrides, isets in configs:
         um = {c.name: overrides.get(c.name) for c in system.components} if overrides else None
         iset = {c.name: isets.get(c.name, 'test') for c in system.components}
@@ -247,7 +255,8 @@ def run_surrogate(ctx, res, seed):
     for o in ('y0', 'y2'):
         if not np.array_equal(np.asarray(base[o]), np.asarray(ov[o])):
             res.failures.append({'kind': 'override-affects-independent-output', 'input': {'seed': seed, 'override': 'c1', 'output': o}})
-    res.case(('surrogate', seed), True, {'system': 'c0->(c1,c2)->c3 diamond', 'seed': seed, 'listing': listing,
+    res.hit('surrogate-less-' + ('last' if nosurr == 'c3' else 'middle'))
+    res.case(('surrogate', seed), True, {'system': 'c0->(c1,c2)->c3 diamond', 'seed': seed, 'listing': listing, 'no_surrogate': nosurr,
                                          'steps': len(system.train_history)})
 
 
@@ -263,7 +272,7 @@ def run(ctx: core.Ctx, only=None) -> core.Result:
         items = [o.get('input', o) for o in only]
     else:
         items = core.corpus_cases('C07') + [{'dag': gen_dag(ctx.rng)} for _ in range(ctx.scale(25, 300))] + \
-            [{'seed': ctx.rng.randrange(10 ** 6)} for _ in range(ctx.scale(2, 12))]
+            [{'seed': 2 * ctx.rng.randrange(10 ** 6) + k % 2} for k in range(ctx.scale(2, 12))]
     for it in items:
         with core.guarded(res, 'scenario-raised', it):
             if 'dag' in it:
